@@ -11,6 +11,7 @@ const (
 	HReturns
 	HPanics
 	HExits
+	HFaults // the hook dies of a genuine runtime error (nil map write); treated like any other panic value
 )
 
 // How a run ends.
